@@ -59,9 +59,9 @@ RULE = ("source classes from hierarchies of 1..5 classes (mutable, ImmutableStru
         "class) and constructed from 6 keyword lists through the constructor and the other entry points; "
         "non-trivial = >= 2 class-creating statements; distinct by sha256 of the case line")
 ASSUMPTIONS = [
-    "class identity is the class name (fresh names per case); defaults are not None",
+    "class identity is the class name (fresh names per case); a literal None default is generated and modelled (it is no default)",
     "None is compared on a retained field only where the documented requiredness of that field agrees in source and derived",
-    "serialization mappers / _additional_properties / immutability are documented as not copied and are not compared",
+    "_additional_properties / _immutable / own mapper attributes of source and derived class are part of the compared class dump (the derived class has none: C12.derive_flags_not_copied); the CONTENT of mappers is not modelled",
 ]
 
 
